@@ -92,6 +92,10 @@ func (v DenseReal64Vector) SET(w DenseReal64Vector) {
   }
 }
 func (v DenseReal64Vector) SLICE(i, j int) DenseReal64Vector {
+  // Go would allow to re-slice a view up to the capacity of its parent
+  if j > len(v) {
+    panic(fmt.Errorf("slice (%d:%d) out of bounds for vector of dimension %d", i, j, len(v)))
+  }
   return v[i:j]
 }
 func (v DenseReal64Vector) APPEND(w DenseReal64Vector) DenseReal64Vector {
@@ -145,6 +149,10 @@ func (v DenseReal64Vector) ReverseOrder() {
   }
 }
 func (v DenseReal64Vector) Slice(i, j int) Vector {
+  // Go would allow to re-slice a view up to the capacity of its parent
+  if j > len(v) {
+    panic(fmt.Errorf("slice (%d:%d) out of bounds for vector of dimension %d", i, j, len(v)))
+  }
   return v[i:j]
 }
 func (v DenseReal64Vector) Swap(i, j int) {
@@ -214,6 +222,10 @@ func (v DenseReal64Vector) ConstAt(i int) ConstScalar {
   return v[i]
 }
 func (v DenseReal64Vector) ConstSlice(i, j int) ConstVector {
+  // Go would allow to re-slice a view up to the capacity of its parent
+  if j > len(v) {
+    panic(fmt.Errorf("slice (%d:%d) out of bounds for vector of dimension %d", i, j, len(v)))
+  }
   return v[i:j]
 }
 func (v DenseReal64Vector) AsConstMatrix(n, m int) ConstMatrix {
@@ -228,6 +240,10 @@ func (v DenseReal64Vector) MagicAt(i int) MagicScalar {
   return v.AT(i)
 }
 func (v DenseReal64Vector) MagicSlice(i, j int) MagicVector {
+  // Go would allow to re-slice a view up to the capacity of its parent
+  if j > len(v) {
+    panic(fmt.Errorf("slice (%d:%d) out of bounds for vector of dimension %d", i, j, len(v)))
+  }
   return v[i:j]
 }
 func (v DenseReal64Vector) ResetDerivatives() {
